@@ -130,3 +130,55 @@ def query_plan(vc):
 class _NoSpec(object):
     def next_execution(self, host):
         return -1
+
+
+SE = 'cassandra.cluster.Session.'
+
+
+@harness('C17', 'target-forwarded', functions=[SE + 'execute', SE + 'execute_async', SE + '_create_response_future'], native='contracts.native.c17:replay')
+def target_forwarded(vc):
+    """the explicitly targeted host (and every other per-request argument) given to Session.execute / execute_async reaches the ResponseFuture that
+    _make_query_plan reads it from: ensures execute -> execute_async -> _create_response_future -> ResponseFuture(host=...) hand on exactly the caller's
+    query, parameters, trace flag, payload (+ the execute_as entry), timeout, profile, paging state and target host, for the synchronous and the asynchronous entry"""
+    from cassandra.cluster import Session
+    from contracts import c46_options as C46
+    entry = vc.choice('entry', ['execute', 'execute_async', '_create_response_future'])
+    tok = {k: C46._Obj(k) for k in ('query', 'parameters', 'timeout', 'profile', 'paging_state', 'host')}
+    if entry == '_create_response_future':
+        C46._TARGET = tok['host']
+        try:
+            out = C46.create_future(vc, vary=())
+        finally:
+            C46._TARGET = None
+        if out is None or out[1]['result'][0] != 'ok':
+            return
+        vc.check('future/constructed-with-the-target', out[0].get('host') is tok['host'])
+        return
+    seen = {}
+
+    class Fut(object):
+        def send_request(self):
+            seen['sent'] = seen.get('sent', 0) + 1
+
+        def result(self):
+            return 'ROWS'
+
+    def crf(self_, query, parameters=None, trace=False, custom_payload=None, timeout=None, execution_profile=None, paging_state=None, host=None):
+        seen.update(query=query, parameters=parameters, trace=trace, custom_payload=custom_payload, timeout=timeout, profile=execution_profile,
+                    paging_state=paging_state, host=host)
+        return Fut()
+    vc.stub(SE + '_create_response_future', crf)
+    vc.stub(SE + '_on_request', lambda self_, f: None)
+    sess = vc.obj(Session, client_protocol_handler='HANDLER')
+    as_user = vc.choice('execute_as', [None, 'alice'])
+    trace = vc.choice('trace', [False, True])
+    payload = {'k': b'v'}
+    kw = dict(parameters=tok['parameters'], timeout=tok['timeout'], trace=trace, custom_payload=payload, execution_profile=tok['profile'],
+              paging_state=tok['paging_state'], host=tok['host'], execute_as=as_user)
+    vc.call(SE + entry, sess, tok['query'], **kw)
+    vc.check('forwarded/target-host', seen.get('host') is tok['host'])
+    vc.check('forwarded/query-parameters-timeout-profile-paging-state',
+             all(seen.get(k) is tok[k] for k in ('query', 'parameters', 'timeout', 'profile', 'paging_state')) and seen.get('trace') is trace)
+    cp = seen.get('custom_payload') or {}
+    vc.check('forwarded/payload-with-proxy-user', cp.get('k') == b'v' and (cp.get('ProxyExecute') == b'alice' if as_user else 'ProxyExecute' not in cp))
+    vc.check('forwarded/sent-once', seen.get('sent') == 1)
